@@ -4,6 +4,7 @@ import LdarModel.Generated.Units
 import LdarModel.Generated.EmisSeed
 import LdarModel.Generated.GenState
 import LdarModel.Generated.SimNumber
+import LdarModel.Generated.GenMarker
 import Mathlib.Data.List.Perm.Subperm
 import Mathlib.Data.List.Range
 import Mathlib.Data.List.Nodup
@@ -707,6 +708,178 @@ theorem batch_size_numbering_counterexample :
 /-- non-vacuity: 11 simulations are three batches -/
 example : batchSimulations 11 = [5, 5, 1] ∧ batchSimulations 5 = [5] ∧ batchSimulations 0 = [0]
     ∧ simNumbers stdNum 11 = List.range 11 := by decide
+
+/-! ### a completed run hands out only scenarios generated under its own configuration,
+whatever the kill point of the runs before it -/
+
+/-- the marker vouches for the configuration in the hashes: if `n_sim_saved.p` says `m`, the stored
+hashes name a configuration and scenario files `0 .. m-1` were all generated under it -/
+def MarkerSound (F : GFolder) : Prop :=
+  ∀ m, F.marker = some m → ∃ h, F.hashes = some h ∧ ∀ i, i < m → F.files i = some h
+
+theorem markerSound_empty : MarkerSound GFolder.empty := by
+  intro m h; simp [GFolder.empty] at h
+
+/-- one run, killed anywhere or completed, keeps the marker sound — provided the marker is removed
+in `initialize_infrastructure` before new hashes are written -/
+theorem runG_markerSound (r : MarkerRemoval) (hr : r.inInfra = true) (c n : Nat) (kill : Kill)
+    (F : GFolder) (hF : MarkerSound F) : MarkerSound (runG r c n kill F) := by
+  have hinfra : MarkerSound (infraStep r c F).1 ∧
+      ((infraStep r c F).2 = true → (infraStep r c F).1 = F ∧ F.hashes = some c ∧ F.marker.isSome = true) ∧
+      ((infraStep r c F).2 = false → (infraStep r c F).1.marker = none ∧ (infraStep r c F).1.hashes = some c) := by
+    unfold infraStep
+    by_cases h : F.hashes = some c ∧ F.marker.isSome
+    · rw [if_pos h]
+      exact ⟨hF, fun _ => ⟨rfl, h.1, h.2⟩, fun hh => by simp at hh⟩
+    · rw [if_neg h]
+      refine ⟨?_, fun hh => by simp at hh, fun _ => ⟨by simp [hr], rfl⟩⟩
+      intro m hm; simp [hr] at hm
+  have hemis : ∀ cut, MarkerSound (emisStep r c n (infraStep r c F).2 cut (infraStep r c F).1) := by
+    intro cut
+    obtain ⟨hs, ht, hf⟩ := hinfra
+    generalize infraStep r c F = p at *
+    obtain ⟨F1, he⟩ := p
+    simp only at hs ht hf ⊢
+    unfold emisStep
+    cases he
+    · -- regeneration
+      obtain ⟨hm0, hh0⟩ := hf rfl
+      simp only [Bool.not_false, ↓reduceIte]
+      generalize effCut cut n = cut
+      cases cut with
+      | some k =>
+        intro m hm
+        cases hri : r.inEmis <;> simp [hri, writeFiles, hm0] at hm
+      | none =>
+        intro m hm
+        have hmn : m = n := by
+          cases hri : r.inEmis <;> simp [hri, writeFiles] at hm <;> omega
+        subst hmn
+        refine ⟨c, ?_, ?_⟩
+        · cases hri : r.inEmis <;> simp [hri, writeFiles, hh0]
+        · intro i hi
+          cases hri : r.inEmis <;> simp [hri, writeFiles, hi]
+    · -- reuse / extension
+      obtain ⟨hFe, hhc, _⟩ := ht rfl
+      subst hFe
+      simp only [Bool.not_true, Bool.false_eq_true, ↓reduceIte]
+      cases hmk : F1.marker with
+      | none => simpa [hmk] using hs
+      | some m0 =>
+        simp only
+        obtain ⟨h0, hh, hfiles⟩ := hs m0 hmk
+        have hc : h0 = c := by rw [hhc] at hh; exact (Option.some.inj hh).symm
+        subst hc
+        by_cases hlt : m0 < n
+        · simp only [hlt, ↓reduceIte]
+          generalize effCut cut (n - m0) = cut
+          cases cut with
+          | some k =>
+            intro m hm
+            simp only [writeFiles] at hm
+            rw [hmk] at hm
+            have : m = m0 := (Option.some.inj hm).symm
+            subst this
+            refine ⟨h0, by simp [writeFiles, hh], ?_⟩
+            intro i hi
+            have : ¬ (m ≤ i ∧ i < min (m + k) n) := by omega
+            simp [writeFiles, this, hfiles i hi]
+          | none =>
+            intro m hm
+            simp only [writeFiles] at hm
+            have : m = n := (Option.some.inj hm).symm
+            subst this
+            refine ⟨h0, by simp [writeFiles, hh], ?_⟩
+            intro i hi
+            by_cases hi0 : i < m0
+            · have : ¬ (m0 ≤ i ∧ i < m) := by omega
+              simp [writeFiles, this, hfiles i hi0]
+            · have : m0 ≤ i ∧ i < m := by omega
+              simp [writeFiles, this]
+        · simp only [hlt, ↓reduceIte]
+          intro m hm
+          rw [hmk] at hm
+          have : m = m0 := (Option.some.inj hm).symm
+          subst this
+          exact ⟨h0, hh, hfiles⟩
+  cases kill with
+  | afterCheck => exact hF
+  | afterInfra => exact hinfra.1
+  | afterFiles k => exact hemis (some k)
+  | complete => exact hemis none
+
+theorem histG_markerSound (r : MarkerRemoval) (hr : r.inInfra = true)
+    (hist : List (Nat × Nat × Kill)) (F : GFolder) (hF : MarkerSound F) :
+    MarkerSound (histG r hist F) := by
+  induction hist generalizing F with
+  | nil => exact hF
+  | cons x rest ih => exact ih _ (runG_markerSound r hr x.1 x.2.1 x.2.2 F hF)
+
+/-- a COMPLETED run with configuration `c` and `n` simulations, on a folder with a sound marker,
+hands every simulation number `i < n` a scenario generated under `c` -/
+theorem complete_run_hands_own (r : MarkerRemoval) (hr : r.inInfra = true) (c n : Nat)
+    (F : GFolder) (hF : MarkerSound F) :
+    ∀ i, i < n → handedOut (runG r c n .complete F) i = some c := by
+  have hs := runG_markerSound r hr c n .complete F hF
+  intro i hi
+  unfold handedOut
+  simp only [runG] at hs ⊢
+  unfold infraStep at hs ⊢
+  by_cases h : F.hashes = some c ∧ F.marker.isSome
+  · simp only [h, and_self, ↓reduceIte] at hs ⊢
+    unfold emisStep at hs ⊢
+    simp only [Bool.not_true, Bool.false_eq_true, ↓reduceIte, effCut] at hs ⊢
+    cases hmk : F.marker with
+    | none => simp [hmk] at h
+    | some m0 =>
+      simp only [hmk] at hs ⊢
+      obtain ⟨h0, hh, hfiles⟩ := hF m0 hmk
+      have hc : h0 = c := by rw [h.1] at hh; exact (Option.some.inj hh).symm
+      subst hc
+      by_cases hlt : m0 < n
+      · simp only [hlt, ↓reduceIte, writeFiles]
+        by_cases hi0 : i < m0
+        · have : ¬ (m0 ≤ i ∧ i < n) := by omega
+          simp [this, hfiles i hi0]
+        · have : m0 ≤ i ∧ i < n := by omega
+          simp [this]
+      · simp only [hlt, ↓reduceIte]
+        exact hfiles i (by omega)
+  · simp only [h, ↓reduceIte]
+    unfold emisStep
+    simp only [Bool.not_false, ↓reduceIte, effCut]
+    cases hri : r.inEmis <;> simp [writeFiles, hi]
+
+/-- the statement asked for: whatever runs came before — each with any configuration, any number of
+simulations, killed at ANY point or completed — a completed run hands out only scenarios generated
+under its own configuration -/
+theorem handed_out_own_configuration (r : MarkerRemoval) (hr : r.inInfra = true)
+    (hist : List (Nat × Nat × Kill)) (c n : Nat) :
+    ∀ i, i < n → handedOut (runG r c n .complete (histG r hist GFolder.empty)) i = some c :=
+  complete_run_hands_own r hr c n _ (histG_markerSound r hr hist _ markerSound_empty)
+
+/-- table obligation on the current source tree: the marker is removed in `initialize_infrastructure`
+before new hashes are written, and written only after the last scenario file -/
+theorem GenMarker.marker_removed_with_hashes :
+    Generated.GenMarker.removedInInfrastructure = true
+    ∧ Generated.GenMarker.markerWrittenAfterFiles = true := by decide
+
+/-- the removal order of the current tree, as the model's parameter -/
+def treeRemoval : MarkerRemoval :=
+  { inInfra := Generated.GenMarker.removedInInfrastructure, inEmis := Generated.GenMarker.removedInEmissions }
+
+theorem handed_out_own_configuration_generated (hist : List (Nat × Nat × Kill)) (c n : Nat) :
+    ∀ i, i < n → handedOut (runG treeRemoval c n .complete (histG treeRemoval hist GFolder.empty)) i = some c :=
+  handed_out_own_configuration treeRemoval GenMarker.marker_removed_with_hashes.1 hist c n
+
+/-- the model can be wrong: with the removal only at the top of the regeneration branch of
+`initialize_emissions`, run 1 (configuration 1) complete, run 2 (configuration 2) killed between
+`setup_infrastructure` and `setup_emissions`, run 3 (configuration 2) complete: simulation 0 is handed
+a scenario generated under configuration 1 -/
+theorem removal_in_emissions_counterexample :
+    handedOut (runG { inInfra := false, inEmis := true } 2 3 .complete
+      (histG { inInfra := false, inEmis := true } [(1, 3, .complete), (2, 3, .afterInfra)] GFolder.empty)) 0
+      = some 1 := by decide
 
 /-! ### verdict -/
 
